@@ -254,6 +254,10 @@ fn plans_c17(tier: Tier) -> Vec<Plan> {
     // two filters under one share name: `$share/g/t` and `$share/g/u` are independent groups
     let c3 = mk("C17", 3, 3, &["t", "u"], &["$share/g/t", "x/+", "$share/g/u"]);
     v.push(Plan { cfg: c3, depth_by_devs: if q { vec![3] } else { vec![5, 4] } });
+    // QoS 2 members (one of them MQTT 5) on a wildcard shared filter; members may also drop
+    let mut c5 = mk("C17", 5, 4, &["t/a"], &["$share/g/t/+"]);
+    c5.v5 = vec![false, false, true, false, false];
+    v.push(Plan { cfg: c5, depth_by_devs: if q { vec![3] } else { vec![5, 4] } });
     // a member with a persistent session (c1) next to a clean one (c2), QoS 1
     let mut c4 = mk("C17", 4, 1, &["t"], &["$share/g/t"]);
     c4.prelude.push(Act::Connect { c: 1, clean: false, will: 0 });
